@@ -1,4 +1,5 @@
 """C13 — idle tunnels are closed after the configured timeout, and only then."""
+import harness
 from specs import timeouts
 
 
